@@ -25,6 +25,7 @@ type gen struct {
 	base   uint64
 	win    int
 	stored []Op // stores so far (for biasing reads)
+	loads  int  // load events so far
 	symOK  bool
 	maxW   int
 }
@@ -91,6 +92,15 @@ func (g *gen) symVal(w int, depth int) *refeval.J {
 			return w
 		}
 		return g.r.Range(1, 12)
+	}
+	if g.r.Chance(1, 6) {
+		// a width adapter (x + 0 at another width), narrowing or widening,
+		// possibly stacked: what SetWidth and the memories produce themselves
+		inner := g.symVal(g.r.Range(1, 16), depth-1)
+		if g.r.Chance(1, 3) {
+			inner = refeval.BinJ(int(expr.Add), inner, refeval.ConstU(0, 1), g.r.Range(1, 16))
+		}
+		return refeval.BinJ(int(expr.Add), inner, refeval.ConstU(0, 1), w)
 	}
 	if g.r.Chance(1, 5) {
 		return refeval.LessJ(g.symVal(sw(), depth-1), g.symVal(sw(), depth-1), g.symVal(sw(), depth-1), g.symVal(sw(), depth-1), w)
@@ -291,10 +301,16 @@ func (g *gen) memOps(n int) {
 				a, w = g.addr(), g.width()
 			}
 			op := Op{K: "store", Addr: a, W: w, V: g.value(w)}
+			if g.loads > 0 && g.r.Chance(1, 7) {
+				// what came out of the memory goes back in (possibly with a
+				// different write width)
+				op.FromLoad = 1 + g.r.Intn(g.loads)
+			}
 			g.t.Ops = append(g.t.Ops, op)
 			g.stored = append(g.stored, op)
 		case 1:
 			a, w := g.readRange()
+			g.loads++
 			g.t.Ops = append(g.t.Ops, Op{K: "load", Addr: a, W: w})
 		case 2:
 			a, w := g.readRange()
